@@ -1,13 +1,14 @@
 package c17
 
 import (
-	"time"
 	"fmt"
 	"net"
 	"runtime"
+	"sort"
 	"sync"
 	"sync/atomic"
 	"testing"
+	"time"
 
 	"github.com/anishathalye/porcupine"
 	"pgregory.net/rapid"
@@ -20,8 +21,21 @@ import (
 const P = "C17"
 
 type seqCase struct {
-	Ops    []op `json:"ops"`
-	NNames int  `json:"names"`
+	Ops     []op  `json:"ops"`
+	NNames  int   `json:"names"`             // scan names 0..NNames-1 ...
+	Scan    []int `json:"scan,omitempty"`    // ... or exactly these
+	Secured bool  `json:"secured,omitempty"` // constructor argument
+}
+
+func (c seqCase) scanSet() []int {
+	if len(c.Scan) > 0 {
+		return c.Scan
+	}
+	s := make([]int, c.NNames)
+	for i := range s {
+		s[i] = i
+	}
+	return s
 }
 
 type kept struct {
@@ -30,9 +44,9 @@ type kept struct {
 	copy  []net.IP
 }
 
-func scan(tbl *nbtns.NetBIOSNameServer, nNames int) (string, string) {
+func scan(tbl *nbtns.NetBIOSNameServer, set []int) (string, string) {
 	var s string
-	for k := 0; k < nNames; k++ {
+	for _, k := range set {
 		owners, typ, err := tbl.QueryName(names[k])
 		if err != nil {
 			s += fmt.Sprintf("%d=false//0;", k)
@@ -40,10 +54,10 @@ func scan(tbl *nbtns.NetBIOSNameServer, nNames int) (string, string) {
 		}
 		key, dup := ownersKey(owners)
 		if dup {
-			return s, fmt.Sprintf("%s has duplicate owners %v", names[k], owners)
+			return s, fmt.Sprintf("%s has duplicate owners %v", nameString(k), owners)
 		}
 		if nbtns.NameType(typ) == nbtns.Unique && len(owners) != 1 {
-			return s, fmt.Sprintf("unique name %s has %d owners %v", names[k], len(owners), owners)
+			return s, fmt.Sprintf("unique name %s has %d owners %v", nameString(k), len(owners), owners)
 		}
 		s += fmt.Sprintf("%d=true/%s/%d;", k, key, typ)
 	}
@@ -52,9 +66,20 @@ func scan(tbl *nbtns.NetBIOSNameServer, nNames int) (string, string) {
 
 // checkSequence runs the operations against a fresh table and the model and
 // compares after every step: result class, a full scan, and every slice a
-// Query has ever returned.
+// Query has ever returned. The constructor's `secured` argument is documented only as "whether
+// this is a secured NetBIOSNameServer" and the property makes no exception for it: the same model
+// holds for both values.
 func checkSequence(c seqCase) []vf.Finding {
-	tbl := nbtns.NewNetBIOSNameServer(false)
+	fs, _ := checkSequenceL(c)
+	return fs
+}
+
+// checkSequenceL also returns labels of what the sequence reached (for the evidence).
+func checkSequenceL(c seqCase) (fs []vf.Finding, labels []string) {
+	tbl := nbtns.NewNetBIOSNameServer(c.Secured)
+	set := c.scanSet()
+	fail := func(f vf.Finding) ([]vf.Finding, []string) { return []vf.Finding{f}, nil }
+	var big, rescued, openSweep bool
 	cands := []state{{}}
 	var keptSlices []kept
 	for i, o := range c.Ops {
@@ -77,55 +102,82 @@ func checkSequence(c seqCase) []vf.Finding {
 		}
 		if len(next) == 0 {
 			want := apply(cands[0], o)
-			return []vf.Finding{vf.F("NetBIOSNameServer."+o.Kind, "result-differs-from-atomic-map", "step %d %s returned %+v, the model allows %+v; history: %s", i, o, res, want[0].Res, seqString(c.Ops[:i+1]))}
+			return fail(vf.F("NetBIOSNameServer."+o.Kind, "result-differs-from-atomic-map", "step %d %s returned %+v, the model allows %+v; history: %s", i, o, res, want[0].Res, seqString(c.Ops[:i+1])))
 		}
-		got, inv := scan(tbl, c.NNames)
+		got, inv := scan(tbl, set)
 		if inv != "" {
-			return []vf.Finding{vf.F("NetBIOSNameServer."+o.Kind, "ownership-invariant-broken", "after step %d %s: %s; history: %s", i, o, inv, seqString(c.Ops[:i+1]))}
+			return fail(vf.F("NetBIOSNameServer."+o.Kind, "ownership-invariant-broken", "after step %d %s: %s; history: %s", i, o, inv, seqString(c.Ops[:i+1])))
 		}
 		var match []state
 		seen := map[string]bool{}
 		for _, st := range next {
-			if st.visible(c.NNames) == got && !seen[st.key()] {
+			if st.visible(set) == got && !seen[st.key()] {
 				seen[st.key()] = true
 				match = append(match, st)
 			}
 		}
 		if len(match) == 0 {
-			return []vf.Finding{vf.F("NetBIOSNameServer."+o.Kind, "table-differs-from-atomic-map", "after step %d %s: scan %s, model %s; history: %s", i, o, got, next[0].visible(c.NNames), seqString(c.Ops[:i+1]))}
+			return fail(vf.F("NetBIOSNameServer."+o.Kind, "table-differs-from-atomic-map", "after step %d %s: scan %s, model %s; history: %s", i, o, got, next[0].visible(set), seqString(c.Ops[:i+1])))
+		}
+		switch prev := cands[0][o.Name]; {
+		case o.Kind == "reg" && len(match[0][o.Name].Owners) > 8:
+			big = true
+		case o.Kind == "refresh" && res.OK && prev.Exp != live && match[0][o.Name].Exp == live:
+			rescued = true
+		case o.Kind == "clean" && len(next) > 1:
+			openSweep = true
 		}
 		cands = match
 		// results already returned never change
 		for _, k := range keptSlices {
 			for j := range k.copy {
 				if !k.slice[j].Equal(k.copy[j]) || len(k.slice) != len(k.copy) {
-					return []vf.Finding{vf.F("NetBIOSNameServer.QueryName", "returned-slice-changed-by-later-update", "result of step %d changed after step %d %s: was %v now %v; history: %s", k.step, i, o, k.copy, k.slice, seqString(c.Ops[:i+1]))}
+					return fail(vf.F("NetBIOSNameServer.QueryName", "returned-slice-changed-by-later-update", "result of step %d changed after step %d %s: was %v now %v; history: %s", k.step, i, o, k.copy, k.slice, seqString(c.Ops[:i+1])))
 				}
 			}
 		}
 	}
 	// mutating a returned slice must not reach the table
 	if len(keptSlices) > 0 {
-		before, _ := scan(tbl, c.NNames)
+		before, _ := scan(tbl, set)
 		for _, k := range keptSlices {
 			for j := range k.slice {
 				k.slice[j] = addrs[5]
 			}
 		}
-		after, _ := scan(tbl, c.NNames)
+		after, _ := scan(tbl, set)
 		if before != after {
-			return []vf.Finding{vf.F("NetBIOSNameServer.QueryName", "returned-slice-aliases-table", "overwriting returned slices changed the table: %s -> %s; history: %s", before, after, seqString(c.Ops))}
+			return fail(vf.F("NetBIOSNameServer.QueryName", "returned-slice-aliases-table", "overwriting returned slices changed the table: %s -> %s; history: %s", before, after, seqString(c.Ops)))
 		}
 	}
-	return nil
+	if c.Secured {
+		labels = append(labels, "secured")
+	}
+	if big {
+		labels = append(labels, "group-with-more-than-8-owners")
+	}
+	if rescued {
+		labels = append(labels, "refresh-moves-expiry-ahead")
+	}
+	if openSweep {
+		labels = append(labels, "sweep-with-undetermined-expiry")
+	}
+	return nil, labels
 }
 
-func alphabet(nNames, nIPs int) []op {
+// alphabet of the exhaustive enumeration over a pair of names and three addresses. The TTL of a
+// registration is a function of (name position, address): the first name never expires (address 0
+// registers it for 1000h, the others for 1h: an expiry much nearer than the record's refresh
+// interval is still ahead); the second name is registered 1h ahead by address 0 and 1h in the past
+// by the others (always expired at the next sweep, unless its creator's positive refresh interval
+// is applied by a refresh in between).
+func alphabet(pair [2]int, nIPs int) []op {
+	ttl := [2][]int{{3, 1, 1}, {1, 2, 2}}
 	var a []op
-	for n := 0; n < nNames; n++ {
+	for pos, n := range pair {
 		for t := 0; t < 2; t++ {
 			for ip := 0; ip < nIPs; ip++ {
-				a = append(a, op{Kind: "reg", Name: n, Type: t, IP: ip})
+				a = append(a, op{Kind: "reg", Name: n, Type: t, IP: ip, TTL: ttl[pos][ip%3]})
 			}
 		}
 		a = append(a, op{Kind: "query", Name: n})
@@ -150,47 +202,67 @@ func seqNontrivial(c seqCase) bool {
 	return false
 }
 
+// allSequences yields every sequence of 1..depth calls over the alphabet.
+func allSequences(alpha []op, depth int, yield func([]op)) {
+	idx := make([]int, depth)
+	for d := 1; d <= depth; d++ {
+		for i := range idx[:d] {
+			idx[i] = 0
+		}
+		for {
+			ops := make([]op, d)
+			for i := 0; i < d; i++ {
+				ops[i] = alpha[idx[i]]
+			}
+			yield(ops)
+			i := d - 1
+			for i >= 0 {
+				idx[i]++
+				if idx[i] < len(alpha) {
+					break
+				}
+				idx[i] = 0
+				i--
+			}
+			if i < 0 {
+				break
+			}
+		}
+	}
+}
+
 func TestSeqExhaustive(t *testing.T) {
 	s := vf.Begin(t, P, "seq-exhaustive")
 	s.SetExhaustive()
-	alpha := alphabet(2, 3)
 	depth := vf.Size(4, 5)
-	s.Note("all sequences of length 1..%d over %d distinct calls (2 names x {Unique,Group} x 3 addresses; one name never expires, the other always does)", depth, len(alpha))
+	pairs := [][2]int{{0, 1}, {5, 6}, {6, 7}, {6, 8}}
+	s.Note("all sequences of length 1..%d over %d distinct calls (2 names x {Unique,Group} x 3 addresses, TTL by name and address) on an unsecured table; all of length 1..%d for both constructor values and %d name pairs (short names; 16-byte names differing only in the suffix byte, only in case, only in padding)", depth, len(alphabet(pairs[0], 3)), depth-1, len(pairs))
 	vf.Enum(s, func(yield func(seqCase)) {
-		idx := make([]int, depth)
-		for d := 1; d <= depth; d++ {
-			for i := range idx[:d] {
-				idx[i] = 0
-			}
-			for {
-				ops := make([]op, d)
-				for i := 0; i < d; i++ {
-					ops[i] = alpha[idx[i]]
+		allSequences(alphabet(pairs[0], 3), depth, func(ops []op) { yield(seqCase{Ops: ops, Scan: pairs[0][:]}) })
+		for i, p := range pairs {
+			for _, secured := range []bool{false, true} {
+				if i == 0 && !secured {
+					continue // covered by the deeper enumeration above
 				}
-				yield(seqCase{ops, 2})
-				i := d - 1
-				for i >= 0 {
-					idx[i]++
-					if idx[i] < len(alpha) {
-						break
-					}
-					idx[i] = 0
-					i--
-				}
-				if i < 0 {
-					break
-				}
+				p := p
+				allSequences(alphabet(p, 3), depth-1, func(ops []op) { yield(seqCase{Ops: ops, Scan: p[:], Secured: secured}) })
 			}
 		}
 	}, checkSequence, seqNontrivial)
 }
 
-func genOp(t *rapid.T, nNames, nIPs int) op {
-	n := rapid.IntRange(0, nNames-1).Draw(t, "name")
+// genOp draws one call over the given names and the first nIPs addresses. With ttls, a registration
+// carries a TTL of its own (past, ahead, far ahead) instead of the per-name default.
+func genOp(t *rapid.T, set []int, nIPs int, ttls bool) op {
+	n := set[rapid.IntRange(0, len(set)-1).Draw(t, "name")]
 	ip := rapid.IntRange(0, nIPs-1).Draw(t, "ip")
 	switch rapid.IntRange(0, 11).Draw(t, "kind") {
 	case 0, 1, 2, 3:
-		return op{Kind: "reg", Name: n, Type: rapid.IntRange(0, 1).Draw(t, "type"), IP: ip}
+		o := op{Kind: "reg", Name: n, Type: rapid.IntRange(0, 1).Draw(t, "type"), IP: ip}
+		if ttls {
+			o.TTL = rapid.SampledFrom([]int{0, 0, 1, 2, 3}).Draw(t, "ttl")
+		}
+		return o
 	case 4, 5:
 		return op{Kind: "query", Name: n}
 	case 6, 7:
@@ -209,12 +281,22 @@ func TestSeqRandom(t *testing.T) {
 	s := vf.Begin(t, P, "seq-random")
 	vf.Rapid(s, vf.N(5000, 80000), func(t *rapid.T) seqCase {
 		n := rapid.IntRange(20, 200).Draw(t, "len")
+		// 2..6 of the names (few names: long histories per name and large groups; the similar
+		// 16-byte names 5..8 are as likely as the short ones), 3, 6 or all addresses
+		all := rapid.Permutation([]int{0, 1, 2, 3, 4, 5, 6, 7, 8}).Draw(t, "names")
+		set := append([]int{}, all[:rapid.IntRange(2, 6).Draw(t, "nnames")]...)
+		sort.Ints(set)
+		nIPs := rapid.SampledFrom([]int{3, 6, 6, len(addrs)}).Draw(t, "nips")
 		ops := make([]op, n)
 		for i := range ops {
-			ops[i] = genOp(t, 5, 6)
+			ops[i] = genOp(t, set, nIPs, true)
 		}
-		return seqCase{ops, 5}
-	}, checkSequence, seqNontrivial)
+		return seqCase{Ops: ops, Scan: set, Secured: rapid.Bool().Draw(t, "secured")}
+	}, func(c seqCase) []vf.Finding {
+		fs, labels := checkSequenceL(c)
+		s.Class(labels...)
+		return fs
+	}, seqNontrivial)
 }
 
 // ---- concurrent programs, judged by linearizability against the same model -----------------------------
@@ -223,6 +305,7 @@ type progCase struct {
 	Threads [][]op `json:"threads"`
 	Yield   []bool `json:"yield_before"` // Gosched injection, consumed round-robin
 	Procs   int    `json:"gomaxprocs"`
+	Secured bool   `json:"secured,omitempty"`
 }
 
 type call struct {
@@ -250,7 +333,7 @@ var pmodel = porcupine.Model{
 }
 
 func runProgram(c progCase) (hist []porcupine.Operation, dupInv string) {
-	tbl := nbtns.NewNetBIOSNameServer(false)
+	tbl := nbtns.NewNetBIOSNameServer(c.Secured)
 	var clock int64
 	var mu sync.Mutex
 	var wg sync.WaitGroup
@@ -337,11 +420,12 @@ func TestConcurrentLinearizable(t *testing.T) {
 			k := rapid.IntRange(3, 8).Draw(t, "ops")
 			th := make([]op, k)
 			for j := range th {
-				th[j] = genOp(t, nn, 4)
+				th[j] = genOp(t, []int{0, 1, 2}[:nn], 4, false)
 			}
 			c.Threads = append(c.Threads, th)
 		}
 		c.Yield = rapid.SliceOfN(rapid.Bool(), 1, 16).Draw(t, "yield")
+		c.Secured = rapid.Bool().Draw(t, "secured")
 		return c
 	}, checkProgram, func(c progCase) bool {
 		touched := map[int]int{}
@@ -365,48 +449,87 @@ func TestConcurrentLinearizable(t *testing.T) {
 	s.Count("program-executions", atomic.LoadInt64(&concRuns))
 }
 
-// a fixed stress: many goroutines registering/releasing/querying one group name; the race detector and
-// the invariants are the oracle (no linearizability check: the history is too long for it)
+// a fixed stress: many goroutines (distinct addresses) registering/releasing/querying one group name and
+// one unique name, and holding a second group name throughout. The race detector, the result of every
+// call and the invariants are the oracle (no linearizability check: the history is too long for it).
+// What each goroutine may conclude locally, whatever the others do:
+//   - registering a group name as a group succeeds (the name is absent or a group at all times);
+//   - between its own registration and its own release it is an owner: Query succeeds and lists it,
+//     Refresh and Release by it succeed;
+//   - it holds the unique name iff its Register succeeded, and then until its own Release: Query shows
+//     exactly it, its Release succeeds; otherwise its Release fails (someone else, or nobody, holds it);
+//   - at the end the held group's owners are exactly the addresses that registered it (more than 8).
 func TestRaceStress(t *testing.T) {
 	s := vf.Begin(t, P, "race-stress")
 	type sc struct {
-		Goroutines int `json:"goroutines"`
-		Rounds     int `json:"rounds"`
+		Goroutines int  `json:"goroutines"`
+		Rounds     int  `json:"rounds"`
+		Secured    bool `json:"secured,omitempty"`
 	}
 	vf.Enum(s, func(yield func(sc)) {
-		yield(sc{4, vf.N(400, 5000)})
-		yield(sc{16, vf.N(200, 3000)})
+		yield(sc{4, vf.N(400, 5000), false})
+		yield(sc{16, vf.N(200, 3000), false})
+		yield(sc{12, vf.N(100, 1500), true})
 	}, func(c sc) []vf.Finding {
-		tbl := nbtns.NewNetBIOSNameServer(false)
+		tbl := nbtns.NewNetBIOSNameServer(c.Secured)
 		var wg sync.WaitGroup
 		var bad atomic.Value
+		fail := func(kind, format string, a ...any) {
+			bad.CompareAndSwap(nil, vf.F("NetBIOSNameServer", kind, format, a...))
+		}
+		contains := func(owners []net.IP, ip net.IP) bool {
+			for _, o := range owners {
+				if o.Equal(ip) {
+					return true
+				}
+			}
+			return false
+		}
+		ipOf := func(g int) net.IP { return net.IPv4(10, 1, byte(g), 1).To4() }
 		for g := 0; g < c.Goroutines; g++ {
 			wg.Add(1)
 			go func(g int) {
 				defer wg.Done()
-				ip := net.IPv4(10, 1, byte(g), 1).To4()
-				for r := 0; r < c.Rounds; r++ {
-					tbl.RegisterName("GRP", nbtns.Group, ip, time.Hour)
-					tbl.RegisterName("UNQ", nbtns.Unique, ip, time.Hour)
-					if owners, typ, err := tbl.QueryName("GRP"); err == nil {
+				ip := ipOf(g)
+				if err := tbl.RegisterName("KEEP", nbtns.Group, ip, time.Hour); err != nil {
+					fail("group-registration-refused", "Register(KEEP, Group, %v) = %v with %d goroutines registering", ip, err, c.Goroutines)
+				}
+				for r := 0; r < c.Rounds && bad.Load() == nil; r++ {
+					if err := tbl.RegisterName("GRP", nbtns.Group, ip, time.Hour); err != nil {
+						fail("group-registration-refused", "Register(GRP, Group, %v) = %v (round %d)", ip, err, r)
+					}
+					holds := tbl.RegisterName("UNQ", nbtns.Unique, ip, time.Hour) == nil
+					for _, name := range []string{"GRP", "KEEP"} {
+						owners, typ, err := tbl.QueryName(name)
+						if err != nil || typ != nbtns.Group || !contains(owners, ip) {
+							fail("member-missing-from-query", "Query(%s) = %v, %v, %v while %v is registered (round %d)", name, owners, typ, err, ip, r)
+							continue
+						}
 						seen := map[string]bool{}
 						for _, o := range owners {
 							if seen[o.String()] {
-								bad.Store(fmt.Sprintf("duplicate owner %v in %v", o, owners))
+								fail("ownership-invariant-broken", "duplicate owner %v in %v", o, owners)
 							}
 							seen[o.String()] = true
 						}
-						_ = typ
-						if len(owners) > 0 {
-							owners[0] = nil // scribble on our copy
-						}
+						owners[0] = nil // scribble on our copy
 					}
-					if owners, _, err := tbl.QueryName("UNQ"); err == nil && len(owners) != 1 {
-						bad.Store(fmt.Sprintf("unique name with owners %v", owners))
+					owners, typ, err := tbl.QueryName("UNQ")
+					if err == nil && (len(owners) != 1 || typ != nbtns.Unique) {
+						fail("ownership-invariant-broken", "unique name with owners %v type %v", owners, typ)
 					}
-					tbl.RefreshName("GRP", ip)
-					tbl.ReleaseName("UNQ", ip)
-					tbl.ReleaseName("GRP", ip)
+					if holds && (err != nil || !contains(owners, ip)) {
+						fail("unique-name-lost-while-held", "Query(UNQ) = %v, %v after %v registered it and before it released it (round %d)", owners, err, ip, r)
+					}
+					if err := tbl.RefreshName("GRP", ip); err != nil {
+						fail("refresh-by-member-refused", "Refresh(GRP, %v) = %v (round %d)", ip, err, r)
+					}
+					if err := tbl.ReleaseName("UNQ", ip); (err == nil) != holds {
+						fail("unique-release-differs-from-holding", "Release(UNQ, %v) = %v, Register had succeeded: %v (round %d)", ip, err, holds, r)
+					}
+					if err := tbl.ReleaseName("GRP", ip); err != nil {
+						fail("release-by-member-refused", "Release(GRP, %v) = %v (round %d)", ip, err, r)
+					}
 					if r%50 == 0 {
 						tbl.CleanExpiredNames()
 					}
@@ -415,10 +538,27 @@ func TestRaceStress(t *testing.T) {
 		}
 		wg.Wait()
 		if v := bad.Load(); v != nil {
-			return []vf.Finding{vf.F("NetBIOSNameServer", "ownership-invariant-broken", "%v", v)}
+			return []vf.Finding{v.(vf.Finding)}
 		}
 		if _, _, err := tbl.QueryName("GRP"); err == nil {
 			return []vf.Finding{vf.F("NetBIOSNameServer", "group-not-deleted-after-last-release", "GRP still present after every goroutine released it")}
+		}
+		owners, _, err := tbl.QueryName("KEEP")
+		if err != nil || len(owners) != c.Goroutines {
+			return []vf.Finding{vf.F("NetBIOSNameServer", "group-owners-differ-from-registrants", "KEEP was registered by %d addresses and released by none: Query = %v, %v", c.Goroutines, owners, err)}
+		}
+		for g := 0; g < c.Goroutines; g++ {
+			if !contains(owners, ipOf(g)) {
+				return []vf.Finding{vf.F("NetBIOSNameServer", "group-owners-differ-from-registrants", "KEEP lacks registrant %v: %v", ipOf(g), owners)}
+			}
+		}
+		for g := 0; g < c.Goroutines; g++ {
+			if err := tbl.ReleaseName("KEEP", ipOf(g)); err != nil {
+				return []vf.Finding{vf.F("NetBIOSNameServer", "release-by-member-refused", "Release(KEEP, %v) = %v", ipOf(g), err)}
+			}
+		}
+		if _, _, err := tbl.QueryName("KEEP"); err == nil {
+			return []vf.Finding{vf.F("NetBIOSNameServer", "group-not-deleted-after-last-release", "KEEP still present after every registrant released it")}
 		}
 		return nil
 	}, nil)
